@@ -55,6 +55,12 @@ class Lg:
         self.envx = envx
         self.label = label
 
+    def __hash__(self):
+        # deterministic (labels are strings, PYTHONHASHSEED is fixed): the
+        # iteration order of desper's listener sets must not depend on
+        # object addresses, or replays of one history could differ
+        return hash(self.label)
+
     def on_add(self, entity, world):
         self.envx.log.append(('on_add', self.label, world.vlabel))
 
